@@ -1078,7 +1078,7 @@ class Interp:
             if value.chars is None:
                 raise Undecided("iteration over abstract text without character model")
             yield from list(value.chars)
-        elif isinstance(value, (_Enumerate, _Islice, _Zip, _Iter)):
+        elif isinstance(value, (_Enumerate, _Islice, _Zip, _Iter, _Map)):
             # these are iterators: they keep their position between a for loop and next()
             if value.generator is None:
                 value.generator = self._fresh_iterator(value)
@@ -1099,6 +1099,10 @@ class Interp:
     def _fresh_iterator(self, value):
         if isinstance(value, _Iter):
             yield from self.iterate(value.inner)
+        elif isinstance(value, _Map):
+            # lazy: the function is applied when (and only when) somebody takes the items
+            for item in self.iterate(value.inner):
+                yield self.call(value.function, [item], {})
         elif isinstance(value, _Enumerate):
             index = value.start
             for item in self.iterate(value.inner):
@@ -1656,6 +1660,15 @@ class _Zip:
         self.generator = None
 
 
+class _Map:
+    """map(function, iterable): nothing is called before the result is iterated."""
+
+    def __init__(self, function, inner):
+        self.function = function
+        self.inner = inner
+        self.generator = None
+
+
 class _Iter:
     """iter(x): an iterator with its own position."""
 
@@ -1850,7 +1863,7 @@ _DEFAULT_EXTERNALS = {}
 _BUILTIN_FUNCTIONS = {
     "len", "isinstance", "max", "min", "enumerate", "range", "zip", "dict", "list", "tuple", "set", "sorted", "str",
     "repr", "any", "all", "ord", "chr", "int", "next", "type", "bool", "sum", "iter", "property", "eval", "hasattr",
-    "getattr", "setattr", "abs", "round", "divmod", "frozenset", "reversed", "map", "filter", "compile",
+    "getattr", "setattr", "abs", "round", "divmod", "frozenset", "reversed", "map", "filter", "compile", "float",
 }
 
 
@@ -1925,6 +1938,12 @@ def _isinstance(interp, args, kwargs):
                 if _is_int(value) or isinstance(value, (Sym, RInt)):
                     return True
                 continue
+            if name == "builtins.float":
+                if isinstance(value, float):
+                    return True
+                if isinstance(value, Opaque) and value.tag not in ("str", "nonstr"):
+                    raise Undecided("isinstance(%r, float)" % (value,))
+                continue
             if name == "builtins.tuple":
                 if isinstance(value, tuple):
                     return True
@@ -1985,6 +2004,38 @@ def _extreme(pick_greater):
 
 _DEFAULT_EXTERNALS["builtins.max"] = _extreme(True)
 _DEFAULT_EXTERNALS["builtins.min"] = _extreme(False)
+
+
+@_ext("builtins.map")
+def _map(interp, args, kwargs):
+    if len(args) != 2:
+        raise Undecided("map over %d iterables" % (len(args) - 1))
+    return _Map(args[0], args[1])
+
+
+@_ext("operator.methodcaller")
+def _methodcaller(interp, args, kwargs):
+    name, rest = args[0], list(args[1:])
+    if not isinstance(name, str):
+        raise Undecided("methodcaller(%r)" % (name,))
+
+    def call_method(interp_, call_args, call_kwargs):
+        (receiver,) = call_args
+        return interp_.call(interp_.getattr(receiver, name), rest, dict(kwargs))
+
+    call_method._absint_stub = True
+    return call_method
+
+
+@_ext("builtins.float")
+def _float(interp, args, kwargs):
+    (value,) = args
+    if isinstance(value, (str, int, float)) and not isinstance(value, bool):
+        try:
+            return float(value)
+        except (ValueError, OverflowError) as error:
+            interp.raise_("builtins." + type(error).__name__, str(error))
+    raise Undecided("float of %r" % (value,))
 
 
 @_ext("builtins.enumerate")
@@ -2160,7 +2211,7 @@ def _next(interp, args, kwargs):
                 return args[1]
             interp.raise_("builtins.StopIteration")
         return item
-    if isinstance(source, (_Enumerate, _Islice, _Zip, _Iter)):
+    if isinstance(source, (_Enumerate, _Islice, _Zip, _Iter, _Map)):
         if source.generator is None:
             source.generator = interp._fresh_iterator(source)
         try:
@@ -2175,7 +2226,7 @@ def _next(interp, args, kwargs):
 @_ext("builtins.iter")
 def _iter(interp, args, kwargs):
     (source,) = args
-    if isinstance(source, (GenVal, AbsIter, _Enumerate, _Islice, _Zip, _Iter)):
+    if isinstance(source, (GenVal, AbsIter, _Enumerate, _Islice, _Zip, _Iter, _Map)):
         return source
     return _Iter(source)
 
